@@ -67,7 +67,15 @@ def Validate (m : Tunnox.C19.HTTPDomainMapping) : Bool :=
 end repos.HTTPDomainMapping
 
 namespace Skel
+def Adapter_Create : List String := ["repo.CreateMapping", "@clientID", "repo.UpdateMapping", "repo.UpdateMapping"]
+def Adapter_Delete : List String := ["repo.DeleteMapping", "@mappingID", "@clientID", "@mappingID"]
+def Adapter_IsSubdomainAvailable : List String := ["repo.CheckSubdomainAvailable"]
+def CheckSubdomainAvailable : List String := ["HTTPDomainIndexKey", "storage.Exists"]
+def CleanupExpiredMappings : List String := ["ListAllMappings", "IsExpired", "DeleteMapping", "@mapping.ID", "@mapping.ClientID"]
+def CreateHandler_Handle : List String := ["@ctx.ClientID", "@ctx.ClientID", "checker.IsBaseDomainAllowed", "checker.IsSubdomainAvailable", "@req.MappingTTL", "creator.CreateHTTPDomainMapping", "@ctx.ClientID"]
+def CreateHandler_Handle_lits : List Nat := [0, 80, 443, 0, 7, 24, 3600]
 def CreateMapping : List String := ["isBaseDomainSupported", "generateMappingID", "Validate", "HTTPDomainIndexKey", "SetNX", "storage.Delete", "HTTPDomainMappingKey", "storage.Set", "storage.Delete", "addToClientMappingList", "storage.Delete", "storage.Delete", "addToGlobalMappingList"]
+def DeleteHandler_Handle : List String := ["@ctx.ClientID", "@ctx.ClientID", "@req.MappingID", "deleter.DeleteHTTPDomainMapping", "@ctx.ClientID", "@req.MappingID", "@req.MappingID"]
 def DeleteMapping : List String := ["GetMapping", "HTTPDomainDeleteClaimKey", "SetNX", "storage.Delete", "HTTPDomainIndexKey", "storage.Get", "storage.Delete", "HTTPDomainMappingKey", "storage.Delete", "removeFromClientMappingList", "removeFromGlobalMappingList"]
 def GetMapping : List String := ["HTTPDomainMappingKey", "storage.Get"]
 def LookupByDomain : List String := ["HTTPDomainIndexKey", "storage.Get", "GetMapping"]
@@ -78,6 +86,9 @@ def Registry_Register : List String := ["FullDomain", "IsBaseDomainAllowed", "mu
 def Registry_Unregister : List String := ["mu.Lock", "defer mu.Unlock", "@r.mappings", "@r.mappings"]
 def UpdateMapping : List String := ["GetMapping", "Validate", "HTTPDomainMappingKey", "storage.Set"]
 def generateMappingID : List String := ["Incr"]
+def handleLargeRequest : List String := ["lookupMapping", "@r.Host", "@mapping.TargetClientID", "@r.Host", "RequestTunnelForHTTP", "@mapping.TargetClientID"]
+def handleSmallRequest : List String := ["lookupMapping", "@r.Host", "GetControlConnectionInterface", "@mapping.TargetClientID", "buildProxyRequest", "SendHTTPProxyRequest", "@mapping.TargetClientID"]
+def handleUserWebSocket : List String := ["lookupMapping", "@r.Host", "@mapping.TargetClientID", "@r.Host", "RequestTunnelForHTTP", "@mapping.TargetClientID"]
 def lookupFromRepositoryWithRepo : List String := ["repo.LookupByDomain", "IsActive", "IsExpired", "convertHTTPDomainMappingToPortMapping"]
 def lookupMapping : List String := ["extractDomain", "lookupFromRepositoryWithRepo", "IsCode", "registry.LookupByHost", "CloudControl.GetPortMappingByDomain", "registry.Register"]
 end Skel
